@@ -311,7 +311,7 @@ Proof.
   assert (LSo : LS l0 (open_lit sb)).
   { unfold open_lit, LS. cbn [set_local fst snd]. split; [exact E2|]. subst sb l0. cbn [set_local snd indent_local wl_indent wl_unesc]. rewrite E4. reflexivity. }
   assert (To : txt (open_lit sb) = txt st4 ++ [9; 9] ++ write_string_open ++ lit """").
-  { unfold open_lit. change (txt (set_local ?x ?l)) with (txt x). rewrite wr_txt by exact E1. rewrite wr_txt by exact Eb.
+  { unfold open_lit. rewrite txt_set_local. rewrite wr_txt by exact E1. rewrite wr_txt by exact Eb.
     subst sb. cbn [set_local snd indent_local wl_indent]. rewrite E4. cbn [wl_init wl_indent plus tabs brepeat].
     change (txt (fst st4, _)) with (txt st4). rewrite <- app_assoc. reflexivity. }
   assert (Hn : Forall (node_static_at l0) (c :: rest)) by (apply Forall_forall; intros n _; apply static_node_renders; reflexivity).
@@ -330,6 +330,6 @@ Proof.
   { split; [exact (proj1 E6)|]. cbn [set_local snd]. rewrite E4. reflexivity. }
   destruct (tw_wr_quiet c_gohtExit _ Q7) as [[E8 _] _].
   split; [exact E8|].
-  rewrite tw_wr_txt by exact Q7. change (txt (set_local st6 (snd st4))) with (txt st6).
+  rewrite tw_wr_txt by exact Q7. rewrite txt_set_local.
   rewrite T6, T5, To, T4. rewrite <- !app_assoc. reflexivity.
 Qed.
